@@ -34,6 +34,10 @@ type genCfg struct {
 	RPC                                       bool
 	RuleFuzz                                  bool // schema rules with edge values ({type: ""}, {or: []}, ...): mostly invalid documents
 	PathBodyFuzz                              bool // Path bodies that are not objects (type references incl. regex types, arrays, scalars)
+	MacroLadder                               int  // n macros, each pasting the next one twice (acyclic; only the last is pasted for real)
+	MutualTypesMissing                        bool // a long type with an unknown reference and a short type referring back to it, the short one last
+	NoHTTP                                    bool // no URL / method directives outside macros
+	EnumMismatch                              int  // 1: a value that is not in its enum (invalid); 2: the same document with the value added to the enum (valid twin)
 	TwinURLs                                  bool // two URLs with identical children (a method with its own Path): one file can be included from both
 	MessyAnn                                  bool // annotations with tabs, runs of spaces and multi-line /* */ form
 	UnusedMacros                              int  // macros that nobody pastes, with bodies of kinds used nowhere else
@@ -71,6 +75,7 @@ func randomCfg(r *rng) genCfg {
 		c.UnusedMacros = 1 + r.n(2)
 	}
 	c.TwinURLs = r.chance(200)
+	c.NoHTTP = r.chance(80)
 	return c
 }
 
@@ -366,10 +371,21 @@ func generateDoc(r *rng, cfg genCfg) *Doc {
 		}
 		body = append(body, n)
 	}
+	if cfg.EnumMismatch > 0 {
+		vals := []string{"[", `  "ok1",`, `  "ok2"`, "]"}
+		if cfg.EnumMismatch == 2 {
+			vals = []string{"[", `  "ok1",`, `  "odd"`, "]"}
+		}
+		body = append(body, &Node{KW: "ENUM", Params: "@emm", Body: vals})
+		body = append(body, &Node{KW: "GET", Params: "/enummismatch", Kids: []*Node{{KW: "200", Body: []string{"{", `  "k": "odd" // {enum: @emm}`, "}"}}}})
+	}
 	for i := 0; i < cfg.BadEnums; i++ {
 		body = append(body, &Node{KW: "ENUM", Params: "@" + g.ident("be", i), Body: []string{"[", `  "x",`, `  "x"`, "]"}})
 	}
 	methods := []string{"GET", "POST", "PUT", "PATCH", "DELETE"}
+	if cfg.NoHTTP {
+		cfg.URLs, cfg.RPC, cfg.TwinURLs = 0, false, false
+	}
 	for i := 0; i < cfg.URLs; i++ {
 		path := fmt.Sprintf("/res%d", i)
 		withID := r.chance(400)
@@ -494,6 +510,19 @@ func generateDoc(r *rng, cfg genCfg) *Doc {
 		}
 		body = append(body, &Node{KW: "GET", Params: "/macrograph", Kids: []*Node{{KW: "200", Params: "any"}, {KW: "PASTE", Params: "@" + g.ident("gm", r.n(n))}}})
 	}
+	if cfg.MacroLadder > 0 {
+		n := cfg.MacroLadder
+		for i := 0; i < n; i++ {
+			m := &Node{KW: "MACRO", Params: "@" + g.ident("lad", i), Explicit: true}
+			if i+1 < n {
+				m.Kids = []*Node{{KW: "PASTE", Params: "@" + g.ident("lad", i+1)}, {KW: "PASTE", Params: "@" + g.ident("lad", i+1)}}
+			} else {
+				m.Kids = []*Node{{KW: "440", Params: "any"}}
+			}
+			body = append(body, m)
+		}
+		body = append(body, &Node{KW: "GET", Params: "/ladder", Kids: []*Node{{KW: "200", Params: "any"}, {KW: "PASTE", Params: "@" + g.ident("lad", n-1)}}})
+	}
 	if cfg.DupPathParams > 0 {
 		path := "/dup"
 		for k := 0; k < cfg.DupPathParams; k++ {
@@ -521,7 +550,7 @@ func generateDoc(r *rng, cfg genCfg) *Doc {
 			{KW: "GET", Kids: []*Node{{KW: "Path", Body: pb}, {KW: "200", Params: "any"}}},
 		}})
 	}
-	if cfg.TwinURLs {
+	if cfg.TwinURLs && !cfg.NoHTTP {
 		mk := func() []*Node {
 			return []*Node{
 				{KW: "GET", Ann: "twin get", Kids: []*Node{
@@ -557,6 +586,15 @@ func generateDoc(r *rng, cfg genCfg) *Doc {
 		}
 	}
 	d.Top = append(d.Top, body...)
+	if cfg.MutualTypesMissing {
+		long := []string{"{"}
+		for k := 0; k < 25+r.n(30); k++ {
+			long = append(long, fmt.Sprintf(`  "filler%d": "some text to make this body long enough %d",`, k, k))
+		}
+		long = append(long, `  "owner": @mtperson,`, `  "vet": @mtdoctor`, "}")
+		d.Top = append(d.Top, &Node{KW: "TYPE", Params: "@mtpet", Body: long})
+		d.Top = append(d.Top, &Node{KW: "TYPE", Params: "@mtperson", Body: []string{"{", `  "pet": @mtpet // {optional: true}`, "}"}})
+	}
 	return d
 }
 
